@@ -699,8 +699,11 @@ class ExprMixin(object):
                 I = self.Z(idx)
                 if isinstance(idx, int) and idx < 0:
                     I = n + idx
-                elif not isinstance(idx, int):
-                    I = z3.If(I < 0, n + I, I) if not self.explorer.nonneg_index else I
+                elif not isinstance(idx, int) and not spec:
+                    # Python wraps negative indices; keep the plain index when it is provably non-negative here.
+                    # (In spec expressions xs[i] is the mathematical select: no wrap-around.)
+                    if ctx.feasible(I < 0):
+                        I = z3.If(I < 0, n + I, I)
                 if not spec:
                     self.oblige("no-IndexError", z3.And(0 <= I, I < n), kind="safety")
                 v = ctx.list_get(base, I)
